@@ -154,6 +154,7 @@ func genRPCError(r *rand.Rand) *RPCError {
 		a, _ := anypb.New(pick(r, detailPool)(r))
 		e.Details = append(e.Details, a)
 	}
+	e.PadDetails = chance(r, 30)
 	return e
 }
 
@@ -364,6 +365,7 @@ func genScenario(r *rand.Rand, so ScenOpts, marker string) *Scenario {
 		}
 		script.ReadBuf = pick(r, []int{0, 0, 7, 64, 4096, 5, 1024})
 		script.DeclareTrailers = chance(r, 40)
+		script.DeclareCase = pick(r, []int{0, 0, 1, 2})
 		script.BareCT = chance(r, 15)
 		script.FlushEach = chance(r, 30)
 		if so.Headers {
